@@ -14,6 +14,7 @@ import IsoVerif.Driver.C10
 import IsoVerif.Driver.C09
 import IsoVerif.Driver.C08
 import IsoVerif.Driver.C03
+import IsoVerif.Driver.C03Text
 import IsoVerif.Driver.C16
 import IsoVerif.Driver.C12
 import IsoVerif.Driver.C07
@@ -43,6 +44,7 @@ def allOps : List (String × Handler) :=
   ++ prefixOps "C09" C09.ops
   ++ prefixOps "C08" C08.ops
   ++ prefixOps "C03" C03.ops
+  ++ prefixOps "C03T" C03T.ops
   ++ prefixOps "C16" C16.ops
   ++ prefixOps "C12" C12.ops
   ++ prefixOps "C07" C07.ops
